@@ -1,14 +1,15 @@
 (** The pass and the stop as operations of a history. *)
 From OCV Require Import Base.Prelude Misc.Time Queue.PMap Queue.OWS Queue.OWSOracle Queue.OWSLemmas Queue.OWSModel Queue.OWSStep.
-From OCV Require Import Coroutine.Co Coroutine.CoOracle Coroutine.CoLemmas Sched.Sched Sched.Pool Sched.PoolOracle Sched.PoolBase Sched.PoolWf Sched.PoolQ Sched.PoolJ Sched.PoolJLemmas Sched.PoolCanon Sched.PoolUnfold Sched.PoolJStep Sched.PoolJLoop Sched.PoolJPass Sched.PoolJHole Sched.PoolJSched Sched.PoolJOps Sched.PoolCount.
+From OCV Require Import Coroutine.Co Coroutine.CoOracle Coroutine.CoLemmas Sched.Sched Sched.Pool Sched.PoolOracle Sched.PoolBase Sched.PoolWf Sched.PoolQ Sched.PoolJ Sched.PoolJLemmas Sched.PoolCanon Sched.PoolUnfold Sched.PoolMeasure Sched.PoolJStep Sched.PoolJLoop Sched.PoolJPass Sched.PoolJHole Sched.PoolJSched Sched.PoolJOps Sched.PoolCount.
 From OCV Require Sched.PoolMono.
 From Coq Require Import ZifyBool ZifyNat.
 Open Scope Z_scope.
 
 Section Ops2.
 Variable mx : Z.
+Variable kp : Z.
 
-Lemma J_unquiet tnt x d h t : J mx tnt x d h t -> J mx tnt x d h (unquiet t).
+Lemma J_unquiet tnt x d h t : J mx kp tnt x d h t -> J mx kp tnt x d h (unquiet t).
 Proof.
   intros [HQ HL HP HS HT HR HW]. constructor; autorewrite with potr; try assumption.
   - eapply JS_unquiet; [exact HS|]. intro H. apply (js_stopped _ _ _ _ _ HS H).
@@ -23,14 +24,14 @@ Proof. reflexivity. Qed.
 
 (** when nothing is runnable, the parked workers are the live ones *)
 Lemma quiet_counts tnt x d t :
-  J mx tnt x d None t -> quiescent x d -> G mx x None ->
+  J mx kp tnt x d None t -> quiescent x d -> G mx x None ->
   count_true (parked (po_clock t)) (po_workers t) = p_running (get_pool x 0) /\
   (all_items (pw_tq x) = [] \/ mx <= p_running (get_pool x 0)).
 Proof.
   intros HJ (Hcq & Hsu & Hsy) HG. pose proof HJ as [HQ HL HP HS HT HR HW].
-  pose proof (jp_tclock _ _ _ HP) as Hcl. split.
+  pose proof (jp_tclock _ _ _ _ HP) as Hcl. split.
   - rewrite (count_workers (parked (po_clock t)) (pw_workers x) (po_workers t) (parked_Ready _) (jw_st _ _ _ HW)).
-    rewrite (jp_run _ _ _ HP), nlive_count. apply count_true_ext. intros k Hk.
+    rewrite (jp_run _ _ _ _ HP), nlive_count. apply count_true_ext. intros k Hk.
     apply In_nth_error in Hk as [w Hw]. pose proof (jl_loc _ _ _ _ _ HL _ _ Hw eq_refl) as Hloc. rewrite Hcq in Hloc.
     unfold live. destruct (k_st k) as [| |y ts|y n st| |r|m]; cbn [loc_ok parked terminal negb] in *; try reflexivity; try contradiction.
     + destruct Hloc as [H _]. rewrite cqc_nil in H. discriminate.
@@ -39,8 +40,11 @@ Proof.
       * destruct Hloc as (_ & _ & _ & H & _). specialize (Hsy _ _ H). lia.
       * destruct Hloc as [H _]. rewrite cqc_nil in H. discriminate.
   - destruct HG as [H|[H|(w & k & Hw & Hl & [Hk|[Hk _]])]]; [left; exact H | right; exact H | | discriminate].
-    exfalso. destruct (jt_mode _ _ _ _ _ _ _ _ HT _ _ Hw Hl eq_refl) as (_ & _ & m & _ & Hb). rewrite Hk in Hb. destruct Hb as [_ Est].
-    pose proof (jl_loc _ _ _ _ _ HL _ _ Hw eq_refl) as Hloc. rewrite Est, Hcq in Hloc. destruct Hloc as [H _]. rewrite cqc_nil in H. discriminate.
+    exfalso. destruct (jt_mode _ _ _ _ _ _ _ _ HT _ _ Hw Hl eq_refl) as (_ & _ & m & _ & Hb). rewrite Hk in Hb. destruct Hb as [_ [Est|Est]].
+    + pose proof (jl_loc _ _ _ _ _ HL _ _ Hw eq_refl) as Hloc. rewrite Est, Hcq in Hloc. destruct Hloc as [H _]. rewrite cqc_nil in H. discriminate.
+    + pose proof (jl_loc _ _ _ _ _ HL _ _ Hw eq_refl) as Hloc. rewrite Est, Hcq in Hloc. cbn [loc_ok] in Hloc.
+      destruct Hloc as (_ & _ & [(H & _)|(_ & _ & H)]); [rewrite cqc_nil in H; discriminate|].
+      specialize (Hsu _ _ H). destruct (jp_keep _ _ _ _ HP) as (_ & Hc0 & _). lia.
 Qed.
 
 (** the three flags that survive a divergence *)
@@ -50,10 +54,10 @@ Definition is_div (ob : pobs) : bool :=
   match ob with OPass PDiverged _ | OStop StopDiverged _ => true | _ => false end.
 
 Lemma waiting_queued tnt x d h t :
-  J mx tnt x d h t -> existsb task_waiting (po_tasks t) = true -> all_items (pw_tq x) <> [].
+  J mx kp tnt x d h t -> existsb task_waiting (po_tasks t) = true -> all_items (pw_tq x) <> [].
 Proof.
   intros HJ Hw. apply existsb_exists in Hw as (k & Hk & Hp). apply In_nth_error in Hk as [i Hi].
-  pose proof (j_t _ _ _ _ _ _ _ HJ) as HT.
+  pose proof (j_t _ _ _ _ _ _ _ _ HJ) as HT.
   assert (i < length (po_tasks t))%nat as Hlt by (apply nth_error_Some; congruence).
   assert (tkn (po_tasks t) i = k) as Ek by (unfold tkn; apply nth_error_nth; exact Hi).
   unfold task_waiting in Hp. apply andb_true_iff in Hp as [Hp H3]. apply andb_true_iff in Hp as [H1 H2].
@@ -64,11 +68,11 @@ Proof.
 Qed.
 
 Lemma unfinished_le tnt x d h t :
-  J mx tnt x d h t ->
+  J mx kp tnt x d h t ->
   count_true (fun k => tt_accepted k && negb (Nat.eqb (tt_started k) 0) && is_none (tt_fin k) && negb (tt_cancel1 k)) (po_tasks t)
   <= p_running (get_pool x 0).
 Proof.
-  intros HJ. pose proof (j_t _ _ _ _ _ _ _ HJ) as HT. rewrite (jp_run _ _ _ (j_p _ _ _ _ _ _ _ HJ)).
+  intros HJ. pose proof (j_t _ _ _ _ _ _ _ _ HJ) as HT. rewrite (jp_run _ _ _ _ (j_p _ _ _ _ _ _ _ _ HJ)).
   apply (count_le_held _ (ttrk0 0 false)). intros i Hi Hp. change (nth i (po_tasks t) (ttrk0 0 false)) with (tkn (po_tasks t) i) in Hp.
   apply andb_true_iff in Hp as [Hp H4]. apply andb_true_iff in Hp as [Hp H3]. apply andb_true_iff in Hp as [H1 H2].
   apply negb_true_iff, Nat.eqb_neq in H2. apply negb_true_iff in H4.
@@ -79,13 +83,13 @@ Proof.
 Qed.
 
 Lemma op_pass tnt x t dl :
-  Jop mx tnt x t ->
+  Jop mx kp tnt x t ->
   let x' := fst (pstep x (PPass 0 dl)) in let ob := snd (pstep x (PPass 0 dl)) in
   let t' := postep 1 [mx] t (PPass 0 dl) ob in
-  if is_div ob then F3 t' else Jop mx tnt x' t'.
+  if is_div ob then F3 t' else Jop mx kp tnt x' t'.
 Proof.
   intros [HJ Hts]. cbn [pstep].
-  pose proof (ppass_J mx tnt x (unquiet t) dl (conj (J_unquiet tnt x _ None t HJ) Hts) (unquiet_quiet_off t)) as Hok.
+  pose proof (ppass_J mx kp tnt x (unquiet t) dl (conj (J_unquiet tnt x _ None t HJ) Hts) (unquiet_quiet_off t)) as Hok.
   destruct (ppass x 0 dl) as [[x' r] e]. cbv zeta. cbn [fst snd postep ppass_ok] in *.
   set (t1 := fold_left pev e (unquiet t)) in *.
   destruct r as [l| | | |]; cbn [is_div]; try contradiction.
@@ -113,16 +117,18 @@ Proof.
     destruct Hok as (-> & -> & Hst). cbn [fold_left] in t1. split; [|exact Hts].
     pose proof (J_unquiet tnt x _ None t HJ) as HJu. pose proof HJu as [HQ HL HP HS HT HR HW]. rewrite getp0.
     assert (pt_stop_ok (nth 0 (po_pools t1) ptrk0) = true) as -> by (apply (js_ok _ _ _ _ _ HS), Hst).
-    eapply (J_tracker_ext mx tnt tnt); [exact HJu | | | | | | | | |]; autorewrite with potr; cbn [Nat.eqb];
-      rewrite ?andb_true_r; try reflexivity; try apply (jp_tclock _ _ _ HP); apply HW.
+    eapply (J_tracker_ext mx kp tnt tnt); [exact HJu | | | | | | | | |]; autorewrite with potr; cbn [Nat.eqb];
+      rewrite ?andb_true_r; try reflexivity; try apply (jp_tclock _ _ _ _ HP); apply HW.
+  - (* diverged: a nap at the end of time *)
+    destruct Hok as (_ & ws & [W1 W2 W3 W4 W5 W6]). unfold F3. autorewrite with potr. cbn [Nat.eqb]. auto.
 Qed.
 
 (** * stopping *)
 Lemma all_done_idle tnt x d t :
-  J mx tnt x d None t -> p_running (get_pool x 0) = 0 -> all_items (pw_tq x) = [] ->
+  J mx kp tnt x d None t -> p_running (get_pool x 0) = 0 -> all_items (pw_tq x) = [] ->
   forallb (fun k => negb (Nat.eqb (tt_pool k) 0) || task_done k) (po_tasks t) = true.
 Proof.
-  intros HJ Hr Hq. pose proof (j_t _ _ _ _ _ _ _ HJ) as HT. apply forallb_forall. intros k Hk.
+  intros HJ Hr Hq. pose proof (j_t _ _ _ _ _ _ _ _ HJ) as HT. apply forallb_forall. intros k Hk.
   apply In_nth_error in Hk as [i Hi].
   assert (i < length (po_tasks t))%nat as Hlt by (apply nth_error_Some; congruence).
   assert (tkn (po_tasks t) i = k) as Ek by (unfold tkn; apply nth_error_nth; exact Hi).
@@ -135,7 +141,7 @@ Proof.
   - assert (In (Z.of_nat i) (all_items (pw_tq x))) as Hin by (apply (jt_ta _ _ _ _ _ _ _ _ HT i); rewrite ?Ek; assumption).
     rewrite Hq in Hin. destruct Hin.
   - destruct (jt_tb _ _ _ _ _ _ _ _ HT i) as (w & kw & rest & Hw & Hl & _); rewrite ?Ek; try assumption.
-    pose proof (nlive_pos _ _ _ Hw Hl). rewrite (jp_run _ _ _ (j_p _ _ _ _ _ _ _ HJ)) in Hr. lia.
+    pose proof (nlive_pos _ _ _ Hw Hl). rewrite (jp_run _ _ _ _ (j_p _ _ _ _ _ _ _ _ HJ)) in Hr. lia.
 Qed.
 
 Lemma JR_stop_step W R N tqi tk i :
@@ -209,42 +215,44 @@ Qed.
 
 (** the state of the pool changes, and the oracle's record of the pool with it *)
 Lemma J_state tnt x d h t t' s' :
-  J mx tnt x d h t -> (p_state (get_pool x 0) = PStopped -> s' = PStopped) ->
+  J mx kp tnt x d h t -> (p_state (get_pool x 0) = PStopped -> s' = PStopped) ->
   po_clock t' = po_clock t -> po_tasks t' = po_tasks t -> po_workers t' = po_workers t ->
   po_c12 t' = true -> po_c01 t' = po_c01 t -> po_c11 t' = po_c11 t -> po_c02 t' = po_c02 t -> po_c13 t' = po_c13 t ->
   JS mx s' (p_running (get_pool x 0)) (all_items (pw_tq x)) (po_pools t') ->
-  J mx tnt (upd_pool x 0 (p_with_state s')) d h t'.
+  J mx kp tnt (upd_pool x 0 (p_with_state s')) d h t'.
 Proof.
   intros HJ Hs E1 E2 E3 F12 F01 F11 F02 F13 HS'. pose proof HJ as [[HQt HQc] HL HP HS HT HR HW].
-  assert (length (pw_pools x) = 1%nat) as Hp by apply (jp_pools _ _ _ HP).
+  assert (length (pw_pools x) = 1%nat) as Hp by apply (jp_pools _ _ _ _ HP).
   assert (upd_post x (upd_pool x 0 (p_with_state s')) (pw_workers x) (pw_tq x) (pw_cancel_tasks x) (pw_running_tasks x)
                    (p_with_state s' (get_pool x 0))) as Hu.
   { constructor; autorewrite with pw; try reflexivity; [apply get_pool_upd_pool_same; lia | rewrite set_nth_length; exact Hp]. }
-  eapply (J_of_post mx tnt x _ d h t' _ _ _ _ _ Hu); autorewrite with pw; rewrite ?E2; try eassumption; try reflexivity.
+  eapply (J_of_post mx kp tnt x _ d h t' _ _ _ _ _ Hu); autorewrite with pw; rewrite ?E2; try eassumption; try reflexivity.
   - destruct HP as [P1 P2 P3 P4 P5 P6 P7 P8 P9 P10 P11 P12]. constructor; try assumption. rewrite E1. exact P11.
-  - apply (jp_run _ _ _ HP).
-  - apply (jp_le _ _ _ HP).
+  - apply (jp_run _ _ _ _ HP).
+  - apply (jp_le _ _ _ _ HP).
   - destruct (p_state (get_pool x 0)) eqn:Est.
     + eapply JR_pst; [exact HR | discriminate].
     + eapply JR_pst; [exact HR | discriminate].
     + rewrite (Hs eq_refl). exact HR.
   - destruct HW as [W1 W2 W3 W4 W5 W6]. constructor; rewrite ?E3, ?F01, ?F11, ?F02, ?F13; assumption.
+  - destruct (jp_keep _ _ _ _ HP) as (_ & _ & Hcr & Hpf). split; [exact Hcr | exact Hpf].
 Qed.
 
 (** the 1 ms nap of the stop loop: only the clock moves *)
-Lemma J_nap tnt x d h t c : J mx tnt x d h t -> pw_clock x <= c -> c <= U64MAX -> J mx tnt (set_clockp x c) d h t.
+Lemma J_nap tnt x d h t c : J mx kp tnt x d h t -> pw_clock x <= c -> c <= U64MAX -> J mx kp tnt (set_clockp x c) d h t.
 Proof.
   intros [HQ HL HP HS HT HR HW] H1 H2. constructor; autorewrite with pw; try assumption.
   - eapply JL_clock; [exact H1 | exact HL].
-  - destruct HP as [P1 P2 P3 P4 P5 P6 P7 P8 P9 P10 P11 P12]. constructor; autorewrite with pw; try assumption. lia.
+  - destruct HP as [P1 P2 P3 P4 P5 P6 P7 P8 P9 P10 P11 P12]. constructor; autorewrite with pw; try assumption; try lia.
+    destruct P3 as (Ek & Hc0 & Hcr & Hpf). split; [exact Ek|]. split; [lia|]. split; [eapply CR_mono; [exact Hcr | exact H1] | exact Hpf].
 Qed.
 
 (** [do_clean] on a stopped pool *)
 Lemma J_do_clean tnt x t :
-  Jop mx tnt x t -> p_state (get_pool x 0) = PStopped -> Jop mx tnt (do_clean x 0) t.
+  Jop mx kp tnt x t -> p_state (get_pool x 0) = PStopped -> Jop mx kp tnt (do_clean x 0) t.
 Proof.
   intros [HJ Hts] Hst. rewrite do_clean_eq. pose proof HJ as [[HQt HQc] HL HP HS HT HR HW].
-  assert (length (pw_pools x) = 1%nat) as Hp by apply (jp_pools _ _ _ HP).
+  assert (length (pw_pools x) = 1%nat) as Hp by apply (jp_pools _ _ _ _ HP).
   destruct (do_clean_fold (p_waits (get_pool x 0)) x (p_nowaits (get_pool x 0)) (all_items (pw_tq x)) (po_tasks t) Hp)
     as (W & R & Hu & HR').
   - apply (jr_wnd _ _ _ _ _ _ HR).
@@ -255,19 +263,20 @@ Proof.
   - set (x3 := fold_left clean_step (p_waits (get_pool x 0)) x) in *.
     pose proof Hu as [U1 U2 U3 U4 U5 U6 U7 U8 U9 U10 U11 U12 U13 U14].
     split; [|rewrite U14; exact Hts]. rewrite U5. autorewrite with pw.
-    eapply (J_of_post mx tnt x x3 _ None t _ _ _ _ _ Hu); autorewrite with pw; try eassumption; try reflexivity.
-    + apply (jp_run _ _ _ HP).
-    + apply (jp_le _ _ _ HP).
+    eapply (J_of_post mx kp tnt x x3 _ None t _ _ _ _ _ Hu); autorewrite with pw; try eassumption; try reflexivity.
+    + apply (jp_run _ _ _ _ HP).
+    + apply (jp_le _ _ _ _ HP).
     + rewrite Hst. exact HR'.
+    + destruct (jp_keep _ _ _ _ HP) as (_ & _ & Hcr & Hpf). split; [exact Hcr | exact Hpf].
 Qed.
 
 (** the tracker's record of the pool changes *)
 Lemma J_tracker_pools tnt tnt' x d h t t' :
-  J mx tnt x d h t ->
+  J mx kp tnt x d h t ->
   po_clock t' <= pw_clock x -> po_tasks t' = po_tasks t -> po_workers t' = po_workers t ->
   JS mx (p_state (get_pool x 0)) (p_running (get_pool x 0)) (all_items (pw_tq x)) (po_pools t') ->
   po_c12 t' = true -> po_c01 t' = true -> (tnt' = false -> po_c11 t' = true) -> po_c02 t' = true -> po_c13 t' = true ->
-  J mx tnt' x d h t'.
+  J mx kp tnt' x d h t'.
 Proof.
   intros [HQ HL HP HS HT HR HW] E1 E3 E4 HS' F12 F01 F11 F02 F13.
   constructor; rewrite ?E3; try assumption.
@@ -294,8 +303,8 @@ Definition stop_ok (tnt : bool) (t : potr) (acc : list ev) (res : pw * stopres *
   let '(x', r, acc') := res in
   exists evs, acc' = acc ++ evs /\
     match r with
-    | StopTimeout => Jop mx tnt x' (fold_left pev evs t) /\ p_state (get_pool x' 0) = PStopping
-    | StopOk => exists x1, x' = do_clean (upd_pool x1 0 (p_with_state PStopped)) 0 /\ Jop mx tnt x1 (fold_left pev evs t) /\
+    | StopTimeout => Jop mx kp tnt x' (fold_left pev evs t) /\ p_state (get_pool x' 0) = PStopping
+    | StopOk => exists x1, x' = do_clean (upd_pool x1 0 (p_with_state PStopped)) 0 /\ Jop mx kp tnt x1 (fold_left pev evs t) /\
                            p_running (get_pool x1 0) = 0 /\ all_items (pw_tq x1) = [] /\ p_state (get_pool x1 0) = PStopping
     | StopDiverged => exists ws, JW ws (fold_left pev evs t) tnt
     | _ => False
@@ -308,15 +317,16 @@ Proof.
 Qed.
 
 Lemma stop_loop_J : forall f tnt x t dl acc,
-  Jop mx tnt x t -> quiet_off t -> p_state (get_pool x 0) = PStopping -> dl <= U64MAX ->
+  Jop mx kp tnt x t -> quiet_off t -> p_state (get_pool x 0) = PStopping -> dl <= U64MAX ->
   stop_ok tnt t acc (stop_loop f x 0 dl acc) /\
   ((1 <= f)%nat -> sat_sub dl (pw_clock x) <= (Z.of_nat f - 1) * 1000000 ->
+   low kp (fst (fst (stop_loop f x 0 dl acc))) ->
    snd (fst (stop_loop f x 0 dl acc)) <> StopDiverged).
 Proof.
   induction f as [|f IH]; intros tnt x t dl acc HJop Hq Hst Hdl.
   - split; [|intro H; exfalso; lia]. cbn [stop_loop stop_ok]. exists []. rewrite app_nil_r. split; [reflexivity|]. destruct HJop as [HJ _].
-    exists (pw_workers x). apply (j_w _ _ _ _ _ _ _ HJ).
-  - rewrite stop_loop_S. pose proof (ppass_J mx tnt x t dl HJop Hq) as Hok.
+    exists (pw_workers x). apply (j_w _ _ _ _ _ _ _ _ HJ).
+  - rewrite stop_loop_S. pose proof (ppass_J mx kp tnt x t dl HJop Hq) as Hok.
     pose proof (PoolMono.ppass_same_states x 0 dl 0%nat) as Hss. rewrite Hst in Hss.
     destruct (ppass x 0 dl) as [[x1 r] e]. cbn [fst snd ppass_ok] in *.
     destruct r as [l| | | |]; try contradiction.
@@ -325,23 +335,27 @@ Proof.
       * destruct (0 <? p_running (get_pool x1 0)) eqn:Erun.
         -- split; [|cbn [fst snd]; discriminate]. cbn [stop_ok]. exists e. split; [reflexivity|]. split; [exact HJ1 | exact Hss].
         -- split; [|cbn [fst snd]; discriminate]. cbn [stop_ok]. exists e. split; [reflexivity|]. exists x1. split; [reflexivity|]. split; [exact HJ1|].
-           destruct HJ1 as [HJ1 _]. pose proof (j_p _ _ _ _ _ _ _ HJ1) as HP.
+           destruct HJ1 as [HJ1 _]. pose proof (j_p _ _ _ _ _ _ _ _ HJ1) as HP.
            assert (p_running (get_pool x1 0) = 0) as Hr0.
-           { rewrite (jp_run _ _ _ HP) in *. pose proof (nlive_nonneg (pw_workers x1)). lia. }
+           { rewrite (jp_run _ _ _ _ HP) in *. pose proof (nlive_nonneg (pw_workers x1)). lia. }
            split; [exact Hr0|]. split; [|exact Hss].
-           destruct HG1 as [H|[H|(w & k & Hw & Hlk & _)]]; [exact H | pose proof (jp_mx _ _ _ HP); lia|].
-           exfalso. pose proof (nlive_pos _ _ _ Hw Hlk). rewrite (jp_run _ _ _ HP) in Hr0. lia.
-      * assert (Jop mx tnt (set_clockp x1 (sat_add64 (pw_clock x1) 1000000)) (fold_left pev e t)) as HJ2.
-        { destruct HJ1 as [HJ1 Hts1]. pose proof (jp_clock _ _ _ (j_p _ _ _ _ _ _ _ HJ1)) as Hc.
+           destruct HG1 as [H|[H|(w & k & Hw & Hlk & _)]]; [exact H | pose proof (jp_mx _ _ _ _ HP); lia|].
+           exfalso. pose proof (nlive_pos _ _ _ Hw Hlk). rewrite (jp_run _ _ _ _ HP) in Hr0. lia.
+      * assert (Jop mx kp tnt (set_clockp x1 (sat_add64 (pw_clock x1) 1000000)) (fold_left pev e t)) as HJ2.
+        { destruct HJ1 as [HJ1 Hts1]. pose proof (jp_clock _ _ _ _ (j_p _ _ _ _ _ _ _ _ HJ1)) as Hc.
           destruct (sat_add64_mono (pw_clock x1) 1000000 Hc ltac:(lia)) as [M1 M2].
           split; [|autorewrite with pw; exact Hts1]. autorewrite with pw. apply J_nap; assumption. }
         destruct (IH tnt _ (fold_left pev e t) dl (acc ++ e) HJ2 (quiet_off_fold _ _ Hq) ltac:(autorewrite with pw; exact Hss) Hdl) as [IH1 IH2].
         split; [apply (stop_ok_chain tnt t acc e), IH1|].
-        intros _ Hrem. apply IH2.
+        intros _ Hrem Hlow. apply IH2; [| |exact Hlow].
         -- apply orb_false_iff in Eend as [_ E2]. unfold sat_sub in *. destruct f as [|f']; [exfalso; lia | lia].
         -- apply orb_false_iff in Eend as [_ E2]. autorewrite with pw. unfold sat_sub, sat_add64 in *.
-           destruct HJ1 as [HJ1 _]. pose proof (jp_clock _ _ _ (j_p _ _ _ _ _ _ _ HJ1)) as Hc. lia.
+           destruct HJ1 as [HJ1 _]. pose proof (jp_clock _ _ _ _ (j_p _ _ _ _ _ _ _ _ HJ1)) as Hc. lia.
     + destruct Hok as (_ & _ & Hs). congruence.
+    + (* the pass diverged: a nap at the end of time *)
+      destruct Hok as (Hhigh & Hjw). split.
+      * cbn [stop_ok]. exists e. split; [reflexivity | exact Hjw].
+      * intros _ _ Hlow. cbn [fst snd] in Hlow. contradiction.
 Qed.
 
 (** the one clause of C11 that the invariant does not give: with nothing left to do, no worker
@@ -393,10 +407,10 @@ Proof.
 Qed.
 
 Lemma Jop_stop_ts tnt x t :
-  Jop mx tnt x t -> p_state (get_pool x 0) <> PStopped -> Jop mx tnt (upd_pool x 0 (p_with_state PStopping)) (stop_ts t).
+  Jop mx kp tnt x t -> p_state (get_pool x 0) <> PStopped -> Jop mx kp tnt (upd_pool x 0 (p_with_state PStopping)) (stop_ts t).
 Proof.
   intros [HJ Hts] Hne. pose proof HJ as [HQ HL HP HS HT HR HW]. split; [|autorewrite with pw; exact Hts].
-  rewrite get_pool_upd_pool_same by (rewrite (jp_pools _ _ _ HP); lia). autorewrite with pw.
+  rewrite get_pool_upd_pool_same by (rewrite (jp_pools _ _ _ _ HP); lia). autorewrite with pw.
   apply (J_state tnt x _ None t (stop_ts t) PStopping HJ); try reflexivity; try apply HW; [contradiction|].
   eapply JS_stop_ts; eassumption.
 Qed.
@@ -415,34 +429,34 @@ Proof.
 Qed.
 
 Lemma Jop_stopped tnt x t1 :
-  Jop mx tnt x t1 -> p_running (get_pool x 0) = 0 -> all_items (pw_tq x) = [] ->
+  Jop mx kp tnt x t1 -> p_running (get_pool x 0) = 0 -> all_items (pw_tq x) = [] ->
   let t2 := flag t1 12 (Nat.ltb 1 1 || forallb (fun k => negb (Nat.eqb (tt_pool k) 0) || task_done k) (po_tasks t1)) in
-  Jop mx tnt (do_clean (upd_pool x 0 (p_with_state PStopped)) 0) (setp t2 0 (stopped_k (getp t2 0))).
+  Jop mx kp tnt (do_clean (upd_pool x 0 (p_with_state PStopped)) 0) (setp t2 0 (stopped_k (getp t2 0))).
 Proof.
   intros [HJ Hts] Hr Hq. cbv zeta. pose proof HJ as [HQ HL HP HS HT HR HW].
   rewrite (all_done_idle tnt x _ t1 HJ Hr Hq). cbn [Nat.ltb Nat.leb orb].
-  apply J_do_clean; [|rewrite get_pool_upd_pool_same by (rewrite (jp_pools _ _ _ HP); lia); reflexivity].
+  apply J_do_clean; [|rewrite get_pool_upd_pool_same by (rewrite (jp_pools _ _ _ _ HP); lia); reflexivity].
   split; [|autorewrite with pw; exact Hts].
-  rewrite get_pool_upd_pool_same by (rewrite (jp_pools _ _ _ HP); lia). autorewrite with pw.
+  rewrite get_pool_upd_pool_same by (rewrite (jp_pools _ _ _ _ HP); lia). autorewrite with pw.
   apply (J_state tnt x _ None t1 _ PStopped HJ); autorewrite with potr; cbn [Nat.eqb]; try reflexivity; try tauto.
   - rewrite (jw_c12 _ _ _ HW). reflexivity.
   - rewrite Hr, Hq, getp0. autorewrite with potr. eapply JS_stopped_k, HS.
 Qed.
 
 Lemma op_stop_live tnt x t dur :
-  Jop mx tnt x t -> p_state (get_pool x 0) <> PStopped ->
+  Jop mx kp tnt x t -> p_state (get_pool x 0) <> PStopped ->
   let res := stop_loop (S (S (Z.to_nat (dur / 1000000)))) (upd_pool x 0 (p_with_state PStopping)) 0
                        (get_timeout_time (pw_clock (upd_pool x 0 (p_with_state PStopping))) dur) [] in
   let x' := fst (fst res) in let ob := OStop (snd (fst res)) (snd res) in
   let t' := postep 1 [mx] t (PStop 0 dur) ob in
-  if is_div ob then F3 t' else Jop mx (tnt || negb (stop_clause t (PStop 0 dur) ob)) x' t'.
+  if is_div ob then F3 t' else Jop mx kp (tnt || negb (stop_clause t (PStop 0 dur) ob)) x' t'.
 Proof.
   intros HJop Hne. cbv zeta. set (x1 := upd_pool x 0 (p_with_state PStopping)).
   pose proof (Jop_stop_ts tnt x t HJop Hne) as HJ1. fold x1 in HJ1.
   assert (p_state (get_pool x1 0) = PStopping) as Hst1.
-  { unfold x1. destruct HJop as [HJ _]. rewrite get_pool_upd_pool_same by (rewrite (jp_pools _ _ _ (j_p _ _ _ _ _ _ _ HJ)); lia). reflexivity. }
+  { unfold x1. destruct HJop as [HJ _]. rewrite get_pool_upd_pool_same by (rewrite (jp_pools _ _ _ _ (j_p _ _ _ _ _ _ _ _ HJ)); lia). reflexivity. }
   assert (quiet_off (stop_ts t)) as Hq1.
-  { unfold quiet_off. destruct HJop as [HJ _]. rewrite (stop_ts_pools t (js_pools _ _ _ _ _ (j_s _ _ _ _ _ _ _ HJ))). cbn [nth].
+  { unfold quiet_off. destruct HJop as [HJ _]. rewrite (stop_ts_pools t (js_pools _ _ _ _ _ (j_s _ _ _ _ _ _ _ _ HJ))). cbn [nth].
     apply (stop_ks_fields t). }
   assert (get_timeout_time (pw_clock x1) dur <= U64MAX) as Hdl.
   { unfold get_timeout_time, sat_add64. destruct (dur <=? U64MAX); lia. }
@@ -455,18 +469,18 @@ Proof.
     apply (Jop_stopped tnt x2 t1 HJ2 Hr2 Hq2).
   - (* StopTimeout *)
     destruct Hok as [[HJ2 Hts2] Hs2]. split; [|exact Hts2]. cbn [Nat.ltb Nat.leb orb].
-    match goal with |- J _ (_ || negb ?b) _ _ _ _ => set (bb := b) end.
-    eapply (J_tracker_ext mx tnt (tnt || negb bb)); [exact HJ2 | | | | | | | | |]; autorewrite with potr; cbn [Nat.eqb];
-      rewrite ?andb_true_r; try reflexivity; try apply (jp_tclock _ _ _ (j_p _ _ _ _ _ _ _ HJ2)); try apply (j_w _ _ _ _ _ _ _ HJ2).
+    match goal with |- J _ _ (_ || negb ?b) _ _ _ _ => set (bb := b) end.
+    eapply (J_tracker_ext mx kp tnt (tnt || negb bb)); [exact HJ2 | | | | | | | | |]; autorewrite with potr; cbn [Nat.eqb];
+      rewrite ?andb_true_r; try reflexivity; try apply (jp_tclock _ _ _ _ (j_p _ _ _ _ _ _ _ _ HJ2)); try apply (j_w _ _ _ _ _ _ _ _ HJ2).
     intro Hb. apply orb_false_iff in Hb as [Hb1 Hb2]. apply negb_false_iff in Hb2. rewrite Hb2, andb_true_r.
-    apply (jw_c11 _ _ _ (j_w _ _ _ _ _ _ _ HJ2)). exact Hb1.
+    apply (jw_c11 _ _ _ (j_w _ _ _ _ _ _ _ _ HJ2)). exact Hb1.
   - (* StopDiverged *)
     destruct Hok as [ws [W1 W2 W3 W4 W5 W6]]. unfold F3. autorewrite with potr. cbn [Nat.eqb]. auto.
 Qed.
 
 Lemma op_stop_stopped tnt x t dur :
-  Jop mx tnt x t -> p_state (get_pool x 0) = PStopped ->
-  Jop mx tnt (do_clean x 0) (postep 1 [mx] t (PStop 0 dur) (OStop StopOk [])).
+  Jop mx kp tnt x t -> p_state (get_pool x 0) = PStopped ->
+  Jop mx kp tnt (do_clean x 0) (postep 1 [mx] t (PStop 0 dur) (OStop StopOk [])).
 Proof.
   intros [HJ Hts] Hst. pose proof HJ as [HQ HL HP HS HT HR HW]. cbn [postep fold_left]. fold (stop_ks t). fold (stop_ts t).
   rewrite Hst in HS. destruct (js_stopped _ _ _ _ _ HS eq_refl) as [Hr0 Hq0].
@@ -474,16 +488,16 @@ Proof.
   rewrite Etk, (all_done_idle tnt x _ t HJ Hr0 Hq0). cbn [Nat.ltb Nat.leb orb].
   apply J_do_clean; [|exact Hst]. split; [|exact Hts]. rewrite getp0. autorewrite with potr.
   eapply (J_tracker_pools tnt tnt); [exact HJ | | | | | | | | |]; autorewrite with potr; cbn [Nat.eqb]; rewrite ?andb_true_r;
-    try reflexivity; try apply (jp_tclock _ _ _ HP); try apply HW.
+    try reflexivity; try apply (jp_tclock _ _ _ _ HP); try apply HW.
   rewrite Hst. pose proof (JS_stop_ts_stopped _ _ t HS) as HS2. rewrite Hr0, Hq0 in *.
   eapply JS_stopped_k. exact HS2.
 Qed.
 
 Lemma op_stop tnt x t dur :
-  Jop mx tnt x t ->
+  Jop mx kp tnt x t ->
   let x' := fst (pstep x (PStop 0 dur)) in let ob := snd (pstep x (PStop 0 dur)) in
   let t' := postep 1 [mx] t (PStop 0 dur) ob in
-  if is_div ob then F3 t' else Jop mx (tnt || negb (stop_clause t (PStop 0 dur) ob)) x' t'.
+  if is_div ob then F3 t' else Jop mx kp (tnt || negb (stop_clause t (PStop 0 dur) ob)) x' t'.
 Proof.
   intros HJop. cbn [pstep]. unfold pstop. destruct (p_state (get_pool x 0)) eqn:Est.
   - pose proof (op_stop_live tnt x t dur HJop ltac:(rewrite Est; discriminate)) as H. cbv zeta in H |- *.
@@ -493,27 +507,29 @@ Proof.
   - cbv zeta. cbn [fst snd is_div stop_clause]. rewrite orb_false_r. apply op_stop_stopped; assumption.
 Qed.
 
-(** a stop whose timeout fits a u64 returns *)
+(** a stop returns, unless a nap hit the end of time *)
 Lemma op_stop_nodiv tnt x t dur :
-  Jop mx tnt x t -> dur <= U64MAX -> is_div (snd (pstep x (PStop 0 dur))) = false.
+  Jop mx kp tnt x t -> low kp (fst (pstep x (PStop 0 dur))) -> is_div (snd (pstep x (PStop 0 dur))) = false.
 Proof.
-  intros HJop Hdur. cbn [pstep]. unfold pstop. destruct (p_state (get_pool x 0)) eqn:Est; [| |reflexivity].
-  all: set (x1 := upd_pool x 0 (p_with_state PStopping)).
+  intros HJop Hlow. cbn [pstep] in *. unfold pstop in *. destruct (p_state (get_pool x 0)) eqn:Est; [| |reflexivity].
+  all: set (x1 := upd_pool x 0 (p_with_state PStopping)) in *.
   all: assert (p_state (get_pool x 0) <> PStopped) as Hne by (rewrite Est; discriminate).
   all: pose proof (Jop_stop_ts tnt x t HJop Hne) as HJ1; fold x1 in HJ1.
   all: assert (p_state (get_pool x1 0) = PStopping) as Hst1 by
-      (unfold x1; destruct HJop as [HJ _]; rewrite get_pool_upd_pool_same by (rewrite (jp_pools _ _ _ (j_p _ _ _ _ _ _ _ HJ)); lia); reflexivity).
+      (unfold x1; destruct HJop as [HJ _]; rewrite get_pool_upd_pool_same by (rewrite (jp_pools _ _ _ _ (j_p _ _ _ _ _ _ _ _ HJ)); lia); reflexivity).
   all: assert (quiet_off (stop_ts t)) as Hq1 by
-      (unfold quiet_off; destruct HJop as [HJ _]; rewrite (stop_ts_pools t (js_pools _ _ _ _ _ (j_s _ _ _ _ _ _ _ HJ))); cbn [nth]; apply (stop_ks_fields t)).
+      (unfold quiet_off; destruct HJop as [HJ _]; rewrite (stop_ts_pools t (js_pools _ _ _ _ _ (j_s _ _ _ _ _ _ _ _ HJ))); cbn [nth]; apply (stop_ks_fields t)).
   all: assert (get_timeout_time (pw_clock x1) dur <= U64MAX) as Hdl by (unfold get_timeout_time, sat_add64; destruct (dur <=? U64MAX); lia).
+  all: assert (0 <= pw_clock x <= U64MAX) as Hc0 by
+      (destruct HJop as [HJ _]; pose proof (jp_clock _ _ _ _ (j_p _ _ _ _ _ _ _ _ HJ)); destruct (jp_keep _ _ _ _ (j_p _ _ _ _ _ _ _ _ HJ)) as (_ & ? & _); lia).
   all: destruct (stop_loop_J (S (S (Z.to_nat (dur / 1000000)))) tnt x1 (stop_ts t) (get_timeout_time (pw_clock x1) dur) [] HJ1 Hq1 Hst1 Hdl) as [_ Hnd].
-  all: assert (snd (fst (stop_loop (S (S (Z.to_nat (dur / 1000000)))) x1 0 (get_timeout_time (pw_clock x1) dur) [])) <> StopDiverged) as Hnd'.
-  1,3: apply Hnd; [lia|].
-  1,2: unfold get_timeout_time, sat_add64, sat_sub; assert (dur <=? U64MAX = true) as -> by lia;
-       assert (pw_clock x1 = pw_clock x) as -> by reflexivity;
-       destruct (Z_lt_le_dec dur 0) as [Hneg|Hpos]; [lia|];
-       pose proof (Z.mul_succ_div_gt dur 1000000 ltac:(lia)) as Hdiv; pose proof (Z.div_pos dur 1000000 Hpos ltac:(lia)) as Hdp; lia.
-  all: destruct (stop_loop _ x1 0 _ []) as [[x' r] e]; cbn [fst snd] in *; destruct r; try reflexivity; contradiction.
+  all: assert (sat_sub (get_timeout_time (pw_clock x1) dur) (pw_clock x1) <= (Z.of_nat (S (S (Z.to_nat (dur / 1000000)))) - 1) * 1000000) as Hfuel by
+      (unfold get_timeout_time, sat_add64, sat_sub; assert (pw_clock x1 = pw_clock x) as -> by reflexivity;
+       destruct (Z_lt_le_dec dur 0) as [Hneg|Hpos]; [destruct (dur <=? U64MAX) eqn:E; lia|];
+       pose proof (Z.mul_succ_div_gt dur 1000000 ltac:(lia)) as Hdiv; pose proof (Z.div_pos dur 1000000 Hpos ltac:(lia)) as Hdp;
+       destruct (dur <=? U64MAX) eqn:E; lia).
+  all: specialize (Hnd ltac:(lia) Hfuel).
+  all: destruct (stop_loop _ x1 0 _ []) as [[x' r] e]; cbn [fst snd] in *; destruct r; try reflexivity; exfalso; apply (Hnd Hlow); reflexivity.
 Qed.
 
 End Ops2.
